@@ -76,6 +76,20 @@ Grammar ==
         /\ an' = IF E.la THEN Analyses(gg, maxk) ELSE <<>>
   /\ UNCHANGED <<cur, stack, pos, tstack, acts, cmts, phase, depth, maxd, off, pend, ref, base>>
 
+\* C08: LookaheadDFA::eval called directly on a token window (recorded between runs).  The window is
+\* the list of upcoming significant token types; end of input follows it.
+Eval ==
+  /\ IsEvent("eval") /\ phase = "idle"
+  /\ LET A == E.nt
+         k == G.kof[A]
+         w == E.window \o <<End>>
+         matching == IF k = 0 THEN ProdsOf(G, A)
+                     ELSE {p \in ProdsOf(G, A) : \E x \in an[k].la[p] : IsPrefix(x, w)}
+     IN /\ E.res >= 0 => (E.res + 1) \in matching       \* never guesses
+        /\ matching = {} => E.res = -1                  \* reports the prediction error
+        /\ matching # {} => (E.res + 1) \in matching     \* and finds the production when there is one
+  /\ UNCHANGED <<G, L, an, cur, stack, pos, tstack, acts, cmts, phase, depth, maxd, off, pend, ref, base>>
+
 Run ==
   /\ IsEvent("run") /\ phase = "idle"
   /\ cur' = E
@@ -231,7 +245,7 @@ ResultErr ==
   /\ phase' = "idle"
   /\ UNCHANGED <<G, L, an, cur, stack, pos, tstack, acts, cmts, depth, maxd, off, pend>>
 
-Next == \/ Grammar \/ Run \/ OpenRoot \/ Predict \/ Match \/ SkipTok \/ Comment \/ EndProd
+Next == \/ Grammar \/ Eval \/ Run \/ OpenRoot \/ Predict \/ Match \/ SkipTok \/ Comment \/ EndProd
         \/ Close \/ CloseRoot \/ EnterErr \/ ActionTrim \/ CommentTrim \/ RootTrim \/ ResultOk \/ ResultErr
 TraceSpec == Init /\ [][Next]_vars
 
